@@ -10,7 +10,7 @@ From Coq Require Import String List ZArith NArith Bool Arith.
 From Coq.Strings Require Import Byte.
 From PV Require Import Base.Bytes Base.Result Codec.Micheline Codec.Zarith Codec.MichelineBin Codec.Prims
   Codec.Base58 Codec.Domain Michelson.Timestamp Michelson.Values Michelson.Pack
-  Proofs.MichelineBin_proofs Proofs.Values_proofs Proofs.Pack_proofs.
+  Proofs.MichelineBin_proofs Proofs.Base58_proofs Proofs.Values_proofs Proofs.Pack_proofs.
 Import ListNotations.
 Local Open Scope list_scope.
 
@@ -20,6 +20,13 @@ Theorem C04_unpack_pack : forall C lam, codec_ok C -> forall t v bs,
   pack C t v = Ok bs -> unpack C lam t bs = Ok v.
 Proof. exact unpack_pack. Qed.
 Print Assumptions C04_unpack_pack.
+
+(* instantiated with the real Base58Check functions (any sha256 with 32-byte output, pinned table) *)
+Corollary C04_unpack_pack_real : forall sha256 lam, sha_ok sha256 -> forall t v bs,
+  has_type lam t v = true -> wf_node (to_mich (real_codec sha256 table43) Optimized v) ->
+  pack (real_codec sha256 table43) t v = Ok bs -> unpack (real_codec sha256 table43) lam t bs = Ok v.
+Proof. intros sha256 lam Hs. exact (unpack_pack _ lam (real_codec_ok sha256 Hs)). Qed.
+Print Assumptions C04_unpack_pack_real.
 
 (* the same for the legacy layout (nested binary pairs) and for the UNPACK instruction *)
 Theorem C04_unpack_pack_legacy : forall C lam, codec_ok C -> forall t v bs,
